@@ -25,6 +25,7 @@ type SimFile struct {
 	Owner           string // task that opened it last
 	Truncations     int
 	StaleBytes      int // bytes planted before the run (crash survivors)
+	FailedWrites    int // writes that returned an injected error
 	OpenedBy        []string
 }
 
@@ -34,7 +35,9 @@ type SimDisk struct {
 	Ops   int
 	// hooks (may be nil)
 	OnOp      func(path, kind string, rec bool) // scheduling point: open, close, record end
-	FailWrite func(path string, opIndex int) error
+	// FailWrite decides the fate of one write: keep < 0 = the write succeeds; otherwise only the first keep bytes
+	// reach the file (0 = none, a torn write otherwise) and err is returned to the caller.
+	FailWrite func(path string, opIndex int, p []byte, sizeNow int) (keep int, err error)
 	FailOpen  func(path string) error
 	CurTask   func() string
 }
@@ -97,10 +100,18 @@ func (w *simWriter) put(p []byte) (int, error) {
 		w.f.WritesAfterEnd++
 	}
 	fail := w.d.FailWrite
+	size := len(w.f.Data)
 	w.d.mu.Unlock()
 	if fail != nil {
-		if err := fail(w.f.Path, n); err != nil {
-			return 0, err
+		if keep, err := fail(w.f.Path, n, p, size); err != nil && keep >= 0 {
+			if keep > len(p) {
+				keep = len(p)
+			}
+			w.d.mu.Lock()
+			w.f.Data = append(w.f.Data, p[:keep]...)
+			w.f.FailedWrites++
+			w.d.mu.Unlock()
+			return keep, err
 		}
 	}
 	w.d.mu.Lock()
